@@ -1,0 +1,103 @@
+//! Verification hooks (cargo feature `verif`, off by default).
+//!
+//! Nothing in here changes the behaviour of the engine unless a hook is
+//! explicitly armed by the harness. All state is thread-local so that
+//! several machines in one process do not disturb each other.
+
+use std::cell::Cell;
+
+thread_local! {
+    static GROWTH_ATTEMPTS: Cell<u64> = const { Cell::new(0) };
+    static GROWTH_FAILED: Cell<u64> = const { Cell::new(0) };
+    static ALLOC_FAIL_AT: Cell<u64> = const { Cell::new(0) };
+    static ALLOC_FAIL_STICKY: Cell<bool> = const { Cell::new(false) };
+    static TICKS: Cell<u64> = const { Cell::new(0) };
+    static INTERRUPT_AT: Cell<u64> = const { Cell::new(0) };
+    static INTERRUPT_RAISED_AT: Cell<u64> = const { Cell::new(0) };
+    static INTERRUPT_DELIVERED_AT: Cell<u64> = const { Cell::new(0) };
+    static INTERRUPT_DELIVERIES: Cell<u64> = const { Cell::new(0) };
+}
+
+/// Called at the top of `InnerHeap::grow`. Returns `true` when the armed
+/// growth attempt has been reached, in which case `grow` reports failure
+/// exactly as if the allocator had returned a null pointer.
+#[inline]
+pub fn alloc_should_fail() -> bool {
+    let n = GROWTH_ATTEMPTS.with(|c| {
+        let n = c.get() + 1;
+        c.set(n);
+        n
+    });
+    let at = ALLOC_FAIL_AT.with(|c| c.get());
+    if at != 0 && (n == at || (n > at && ALLOC_FAIL_STICKY.with(|c| c.get()))) {
+        GROWTH_FAILED.with(|c| c.set(c.get() + 1));
+        true
+    } else {
+        false
+    }
+}
+
+/// Arms the allocation-failure hook: the `k`-th heap growth attempt counted
+/// from now fails (`k == 0` disarms). With `sticky` every later attempt fails too.
+pub fn arm_alloc_fail(k: u64, sticky: bool) {
+    GROWTH_ATTEMPTS.with(|c| c.set(0));
+    GROWTH_FAILED.with(|c| c.set(0));
+    ALLOC_FAIL_AT.with(|c| c.set(k));
+    ALLOC_FAIL_STICKY.with(|c| c.set(sticky));
+}
+
+/// (growth attempts since arming, attempts that were failed by the hook)
+pub fn alloc_counters() -> (u64, u64) {
+    (
+        GROWTH_ATTEMPTS.with(|c| c.get()),
+        GROWTH_FAILED.with(|c| c.get()),
+    )
+}
+
+/// Called once per dispatched instruction in both dispatch loops.
+#[inline(always)]
+pub fn tick() {
+    let n = TICKS.with(|c| {
+        let n = c.get() + 1;
+        c.set(n);
+        n
+    });
+    if n == INTERRUPT_AT.with(|c| c.get()) {
+        INTERRUPT_RAISED_AT.with(|c| c.set(n));
+        crate::machine::INTERRUPT.store(true, std::sync::atomic::Ordering::Relaxed);
+    }
+}
+
+/// Arms the interrupt hook: the process-global interrupt flag is raised when
+/// the `n`-th instruction counted from now is dispatched (`n == 0` disarms).
+pub fn arm_interrupt(n: u64) {
+    TICKS.with(|c| c.set(0));
+    INTERRUPT_AT.with(|c| c.set(n));
+    INTERRUPT_RAISED_AT.with(|c| c.set(0));
+    INTERRUPT_DELIVERED_AT.with(|c| c.set(0));
+    INTERRUPT_DELIVERIES.with(|c| c.set(0));
+}
+
+/// Called by `check_for_interrupt` when it consumed a raised flag.
+#[inline]
+pub fn interrupt_delivered() {
+    INTERRUPT_DELIVERED_AT.with(|c| c.set(TICKS.with(|t| t.get())));
+    INTERRUPT_DELIVERIES.with(|c| c.set(c.get() + 1));
+}
+
+/// (ticks since arming, raised at tick, last delivered at tick, number of deliveries)
+pub fn interrupt_counters() -> (u64, u64, u64, u64) {
+    (
+        TICKS.with(|c| c.get()),
+        INTERRUPT_RAISED_AT.with(|c| c.get()),
+        INTERRUPT_DELIVERED_AT.with(|c| c.get()),
+        INTERRUPT_DELIVERIES.with(|c| c.get()),
+    )
+}
+
+/// Clears a pending (raised but not yet consumed) interrupt flag.
+pub fn clear_interrupt_flag() -> bool {
+    crate::machine::INTERRUPT.swap(false, std::sync::atomic::Ordering::Relaxed)
+}
+
+pub use crate::machine::verif_machine::Footprint;
